@@ -592,7 +592,7 @@ v("C04", "ext-typed-worker-skips-raw", "break", ["C04"], [("plugin_logger.go",
 v("C11", "ext-emit-helper-skip-off-by-one", "break", ["C11"], [("log.go",
   "const viaEntryPoint = 2", "const viaEntryPoint = 1")], base="keep-ext/C11-r7k.patch")
 v("C02", "ext-builder-binds-root-only", "break", ["C02"], [("log_refresh.go",
-  "\t\tobj.logger = c.loggerForTag(tag)\n", "\t\tobj.logger = c.loggerForTag(\"\")\n")], base="keep-ext/C16-r7k.patch")
+  "\t\tobj.logger = c.loggerForTag(tag)\n", "\t\tobj.logger = c.loggerForTag(tag[:0])\n")], base="keep-ext/C16-r7k.patch")
 v("C14", "ext-predicate-drops-shape", "break", ["C14.guards"], [("plugin_appender.go", "\t_, err := time.Parse(\"20060102150405\", suffix)\n\treturn err == nil", "\treturn suffix != \"\"")], base="keep-ext/C14-r4a.patch")
 v("C16", "ext-unbind-helper-skips-handles", "break", ["C16.unbind"], [("log_refresh.go", "\tfor _, l := range loggerMap {\n\t\tl.logger = nil\n\t}\n}", "}")], base="keep-ext/C16-r4a.patch")
 v("C02", "ext-helper-accepts-bad-wildcard", "break", ["C02.validate"], [("log_refresh.go", "\t\tif strings.Contains(tag, \"*\") {\n\t\t\tif !strings.HasSuffix(tag, \"_*\") {\n\t\t\t\treturn nil, errutil.Explain(nil, \"tag '%s' is invalid\", tag)\n\t\t\t}\n\t\t}\n", "")], base="keep-ext/C02-r4b.patch")
